@@ -45,7 +45,7 @@ def check(ctx, adt=T.ANIM_ADT, F=None):
     F = F or ctx.facts
     R = T.roles_of(F, adt)
     body = F.one(name="advance", impl_self_adt=adt, impl_trait=T.SA_TRAIT)
-    eng = pse.Engine(F)
+    eng = T.engine(F)
     paths = eng.run(body)
     ctx.count_paths(paths, body)
     cell = ("M", ("param", 1))
